@@ -40,6 +40,42 @@ pub(crate) fn loc_hash(location: &LocationAndType) -> usize {
     rt::fnv(&bytes)
 }
 
+/// `0` for a storage-origin read, else `((txid + 1) << 32) | incarnation`.
+pub(crate) fn ver_code(version: &crate::ReadVersion) -> usize {
+    match version {
+        crate::ReadVersion::Storage => 0,
+        crate::ReadVersion::MvMemory(v) => ((v.txid + 1) << 32) | v.incarnation,
+        crate::ReadVersion::Beneficiary(_) => usize::MAX,
+    }
+}
+
+/// Stable hash of an account's consensus fields (balance, nonce, code hash); `1` for absent.
+pub(crate) fn account_hash(info: Option<&revm_state::AccountInfo>) -> usize {
+    match info {
+        None => 1,
+        Some(info) => {
+            let mut bytes = Vec::with_capacity(72);
+            bytes.extend_from_slice(&info.balance.to_be_bytes::<32>());
+            bytes.extend_from_slice(&info.nonce.to_be_bytes());
+            bytes.extend_from_slice(info.code_hash.as_slice());
+            rt::fnv(&bytes)
+        }
+    }
+}
+
+pub(crate) fn u256_hash(value: &U256) -> usize {
+    rt::fnv(&value.to_be_bytes::<32>())
+}
+
+pub(crate) fn memory_value_hash(value: &crate::MemoryValue) -> usize {
+    match value {
+        crate::MemoryValue::Basic(info) => account_hash(info.as_ref()),
+        crate::MemoryValue::Code(code) => rt::fnv(code.hash_slow().as_slice()),
+        crate::MemoryValue::Storage(value) => u256_hash(value),
+        crate::MemoryValue::StorageReset => 2,
+    }
+}
+
 /// Observer of ordered-commit events: `(txid, result and finalized state, deferred reward)`,
 /// called just before the commit is applied.
 pub type CommitObserver = dyn Fn(usize, &ResultAndState, Option<U256>) + Send + Sync;
